@@ -51,9 +51,11 @@ def handle (ws : List String) : String :=
         " trees=" ++ ",".intercalate (s.treeLists.map toString) ++
         " mats=" ++ "/".intercalate (s.mats.map (fun m => ".".intercalate (m.map toString))) ++
         " sets=" ++ "/".intercalate ((List.range s.mats.length).map (fun i =>
-          ".".intercalate ((s.charsets.filter (fun c => c.1 == i)).map (fun c => toString c.2.2))))
+          ".".intercalate ((s.charsets.filter (fun c => c.1 == i)).map (fun c => toString c.2.2)))) ++
+        s!" rounds={nexusFuel cs.length - s.fuel}/{nexusFuel cs.length}"
       | .error (.parse _) => "parse"
       | .error (.internal w) => "internal " ++ w
+      | .error .fuel => "internal out of fuel"
     | _, _, _, _, _ => "bad-op"
   | _ => "bad-op"
 
